@@ -1510,7 +1510,8 @@ func buildSelectFieldsWithExpressions(fields []Field) (
 				// The first argument is the aggregated value. When it is an expression
 				// (not a bare column or a nested path) it has to be evaluated per row,
 				// exactly like the argument of a single-parameter aggregate.
-				if containsOperators(n) || containsFunctions(n) {
+				if functions.IsAggregatorFunction(aggFields[0].FuncName) &&
+					(containsOperators(n) || containsFunctions(n)) {
 					if parsedArg, argErr := expr.NewExpression(n); argErr == nil {
 						expressions[aggFields[0].Placeholder] = types.FieldExpression{
 							Field:      n,
